@@ -10,7 +10,7 @@ class Query:
     """One solver query: a harness TU compiled with `defines`, translated, and decided by CBMC."""
 
     def __init__(self, name, srcs, defines=(), stl='model', unwind=8, unwindset=(), timeout=600, mem_gb=12, desc=None,
-                 rt=('rt_cbmc.c',), cbmc_defines=(), expect_reach=None, ll2c_kw=None, inline_all=False, extra_cbmc=(), group=None, exclude=()):
+                 rt=('rt_cbmc.c', 'rt_main.c'), cbmc_defines=(), expect_reach=None, ll2c_kw=None, inline_all=False, extra_cbmc=(), group=None, exclude=()):
         self.name = name
         self.srcs = list(srcs)
         self.defines = list(defines)
@@ -140,7 +140,8 @@ class Check:
         os.makedirs(d, exist_ok=True)
         path = os.path.join(d, re.sub(r'[^A-Za-z0-9_]', '_', q.name) + '.json')
         json.dump({'property': self.pid, 'query': q.name, 'harness': [os.path.relpath(s, VERIF) for s in q.srcs], 'defines': q.defines + q.cbmc_defines, 'stl': q.stl, 'native_extra': [r for r in ('rt/cube.c',) if os.path.basename(r) in q.rt],
-                   'failed_assertion': desc, 'nondet': values}, open(path, 'w'), indent=1)
+                   'failed_assertion': desc, 'nondet': values, 'repo_srcs': getattr(q, 'native_repo_srcs', []), 'shim': getattr(q, 'native_shim', False),
+                   'native_defines': getattr(q, 'native_defines', [])}, open(path, 'w'), indent=1)
         return path
 
     def native_replay(self, path, extra_srcs=(), san=True, timeout=120, extra_flags=(), repo=None):
@@ -150,6 +151,13 @@ class Check:
         repo = repo or core.REPO
         exe = self.ws.path('replay_%s' % os.path.basename(path).replace('.json', ''))
         srcs = [os.path.join(VERIF, s) for s in rp['harness']] + [os.path.join(VERIF, 'rt', 'rt_native.cpp')] + list(extra_srcs)
+        srcs += [os.path.join(repo, s) for s in rp.get('repo_srcs', [])]
+        shimflags = []
+        if rp.get('shim'):
+            # schedule replay: <mutex>/<condition_variable>/<thread> come from /verif/shim (cooperative pthreads driven by the recorded schedule)
+            srcs.append(os.path.join(VERIF, 'shim', 'vf_shim.cpp'))
+            shimflags = ['-I', os.path.join(VERIF, 'shim'), '-DVF_NO_MAIN=1']
+        extra_flags = list(extra_flags) + shimflags + ['-D%s' % d for d in rp.get('native_defines', [])]
         cfiles = [os.path.join(VERIF, s) for s in rp.get('native_extra', [])]
         objs = []
         for cf in cfiles:
@@ -166,10 +174,15 @@ class Check:
         if r.returncode != 0:
             raise BrokenCheck('native replay build failed:\n' + r.stderr[-3000:])
         vals = self.ws.path('replay_vals.txt')
-        with open(vals, 'w') as f:
+        schedf = self.ws.path('replay_sched.txt')
+        with open(vals, 'w') as f, open(schedf, 'w') as g:
             for v in rp['nondet']:
-                f.write('%s\n' % v['value'])
-        env = dict(os.environ, VF_REPLAY=vals, ASAN_OPTIONS='detect_leaks=1:abort_on_error=0:exitcode=42', UBSAN_OPTIONS='print_stacktrace=1')
+                if v.get('fn') == 'vf_run':
+                    val = v['value']
+                    g.write('%d\n' % (val - (1 << 32) if val >= (1 << 31) else val))
+                else:
+                    f.write('%s\n' % v['value'])
+        env = dict(os.environ, VF_REPLAY=vals, VF_SCHEDULE=schedf, ASAN_OPTIONS='detect_leaks=1:abort_on_error=0:exitcode=42', UBSAN_OPTIONS='print_stacktrace=1')
         try:
             r = subprocess.run([exe], capture_output=True, text=True, timeout=timeout, env=env)
         except subprocess.TimeoutExpired:
